@@ -70,7 +70,8 @@ type env struct {
 	stop int32
 	// quiet pauses the injected key traffic: Fini with keys in flight can strand inputLoop on `keychan <-` once mainLoop
 	// has left (a liveness defect that belongs to property C06, not to this one)
-	quiet int32
+	quiet   int32
+	simFini int32
 }
 
 func (e *env) stopped() bool { return atomic.LoadInt32(&e.stop) != 0 }
@@ -174,6 +175,13 @@ var ops = map[string]op{
 	"GetClipboard": func(e *env, r *rnd, i int) { e.s.GetClipboard() },
 	// Fini can only run once: it is issued after a third of the run, the partner keeps going on the finished screen
 	"Fini": func(e *env, r *rnd, i int) {
+		if i == 0 && e.sim != nil && !atomic.CompareAndSwapInt32(&e.simFini, 0, 1) {
+			// simscreen.Fini is not idempotent (simulation.go:152 closes s.quit again: "close of closed channel" on a second
+			// call, sequentially too — not a concurrency matter); the pair (Fini, Fini) finishes a SimulationScreen once.
+			// tScreen.Fini goes through finiOnce and IS called from both loops.
+			time.Sleep(time.Millisecond)
+			return
+		}
 		if i == 0 {
 			time.Sleep(20 * time.Millisecond)
 			atomic.StoreInt32(&e.quiet, 1)
